@@ -304,6 +304,11 @@ func doneRule(c *Ctx, r *Report, fn *ssa.Function, goInstr ssa.Instruction, g *s
 		if dmc, ok := d.Call.Value.(*ssa.MakeClosure); ok {
 			dcf := dmc.Fn.(*ssa.Function)
 			for _, ci := range allCalls(dcf) {
+				// the deferred closure calls a function or method that closes the channel (ip_h4r3.go)
+				for _, ch := range c.h4rCallCloses(ci.Common()) {
+					closed[ch] = true
+					deferAt = in
+				}
 				if callName(ci.Common()) == "builtin.close" {
 					if ld, ok := ci.Common().Args[0].(*ssa.UnOp); ok {
 						if fv, ok := ld.X.(*ssa.FreeVar); ok {
@@ -319,6 +324,11 @@ func doneRule(c *Ctx, r *Report, fn *ssa.Function, goInstr ssa.Instruction, g *s
 			closed[ch] = true
 			deferAt = in
 		}
+		// `defer x.finish(..)`: a deferred call of a function or method that closes the channel
+		for _, ch := range c.h4rCallCloses(&d.Call) {
+			closed[ch] = true
+			deferAt = in
+		}
 		// `defer close(<the channel value itself>)`: no variable in between that could be re-assigned
 		if ch := c.h4DeferredCloseValue(d); ch != "" {
 			closed[ch] = true
@@ -326,6 +336,11 @@ func doneRule(c *Ctx, r *Report, fn *ssa.Function, goInstr ssa.Instruction, g *s
 		}
 	})
 	eachInstrDeep(fn, func(_ *ssa.Function, in ssa.Instruction) {
+		if call, ok := in.(ssa.CallInstruction); ok && callName(call.Common()) != "builtin.close" {
+			for _, ch := range c.h4rCallCloses(call.Common()) {
+				nClose[ch]++ // a close made by a function the spawner (or one of its closures) calls
+			}
+		}
 		if call, ok := in.(ssa.CallInstruction); ok && callName(call.Common()) == "builtin.close" {
 			if ch := c.h4SpawnerChan(call.Common().Args[0], 0); ch != "" {
 				nClose[ch]++ // the channel value itself, or a once-set field holding it (ip_h4.go)
